@@ -17,7 +17,7 @@ PROPS = {
             "thorough": {"timeout": "60s", "bounds": "value universe U(1,3): strings/bytes of 0..3 symbolic bytes; containers of 0..3 elements; copy on U(2,3)", "cross": 3},
         },
         "reach": {"C10_EqSymmetric": ["eqsym"], "C10_EqScript": ["eqscript"], "C10_OrderDual": ["orderdual"], "C10_Trichotomy": ["tricho"],
-                  "C10_IntChar": ["intchar"], "C10_Truthy": ["truthy"], "C10_TruthyScript": ["truthyscript"], "C10_Copy": ["copy"], "C10_Conv": ["conv"]},
+                  "C10_IntChar": ["intchar"], "C10_Truthy": ["truthy"], "C10_TruthyScript": ["truthyscript"], "C10_Copy": ["copy"], "C10_CopyNest": ["copynest"], "C10_Conv": ["conv"]},
         "assumptions": [
             "time values are time.Unix(sec,nsec) with 0<=nsec<1e9 and |sec|<2^55 (no monotonic reading, Local location)",
             "trichotomy assumes non-NaN floats, as the property states",
@@ -53,10 +53,10 @@ PROPS["C02"] = {
     "level": "model_checking",
     "harness": ["C02_", "C03_Lemma"],
     "tiers": {
-        "quick": {"timeout": "20s", "maxsteps": 8000000, "casecap": 1100, "bounds": "encoding lemmas: all 42 opcodes x full operand ranges (8/16/32 bit); VM decoders: 4 jump opcodes x all 2^32 targets, OpConstant/OpGetGlobal/OpSetGlobal/OpGetLocal x full index range; monitor: 44 catalog programs, int inputs a,b (full int64, or -1..3 where they bound a loop), bool c. Generated grammar family (gen.go): every statement sequence of <= 2 nodes from 13 atoms (r += x, x = y + 1, y++, m.k += x, block-scoped declaration, immediately-invoked closure reading a captured variable, closure writing a captured variable, closure over three variables, block-local escaping in a closure, self-recursive local function, break, continue, return) and 8 wrappers (if, if-else, if with init, 3-clause for, for-in, condition-only for, endless for with break, function literal + call), plus every nesting W(W'(atom)) and sibling blocks W(escape); W'(atom), rendered in 4 variable-placement contexts (top level: globals; function body: parameters/locals; closure: captured parameter/locals; loop inside a function) - 2506 programs, inputs a, b full int64 and c bool symbolic: static verifier + VM monitor on each; the optimizer lemma of C03 (arbitrary streams of 2..3 instructions with symbolic operand bytes, 4 instructions over the control-flow core) for the clause 'every path ends in a return'", "cross": 1},
-        "thorough": {"timeout": "60s", "maxsteps": 8000000, "casecap": 1100, "bounds": "as quick (the catalog and operand ranges are the bound). Generated grammar family (gen.go): every statement sequence of <= 3 nodes (13 atoms, 8 wrappers) in 4 variable-placement contexts - 22092 programs, inputs a, b full int64 and c bool symbolic: static verifier + VM monitor on each", "cross": 2},
+        "quick": {"timeout": "20s", "maxsteps": 400000000, "casecap": 1100, "bounds": "encoding lemmas: all 42 opcodes x full operand ranges (8/16/32 bit); VM decoders: 4 jump opcodes x all 2^32 targets, OpConstant/OpGetGlobal/OpSetGlobal/OpGetLocal x full index range; monitor: 44 catalog programs, int inputs a,b (full int64, or -1..3 where they bound a loop), bool c. Generated grammar family (gen.go): every statement sequence of <= 2 nodes from 13 atoms (r += x, x = y + 1, y++, m.k += x, block-scoped declaration, immediately-invoked closure reading a captured variable, closure writing a captured variable, closure over three variables, block-local escaping in a closure, self-recursive local function, break, continue, return) and 8 wrappers (if, if-else, if with init, 3-clause for, for-in, condition-only for, endless for with break, function literal + call), plus every nesting W(W'(atom)) and sibling blocks W(escape); W'(atom), rendered in 4 variable-placement contexts (top level: globals; function body: parameters/locals; closure: captured parameter/locals; loop inside a function) - 2506 programs, inputs a, b full int64 and c bool symbolic: static verifier + VM monitor on each; the optimizer lemma of C03 (arbitrary streams of 2..3 instructions with symbolic operand bytes, 4 instructions over the control-flow core) for the clause 'every path ends in a return'", "cross": 1},
+        "thorough": {"timeout": "60s", "maxsteps": 400000000, "casecap": 1100, "bounds": "as quick (the catalog and operand ranges are the bound). Generated grammar family (gen.go): every statement sequence of <= 3 nodes (13 atoms, 8 wrappers) in 4 variable-placement contexts - 22092 programs, inputs a, b full int64 and c bool symbolic: static verifier + VM monitor on each", "cross": 2},
     },
-    "reach": {"C02_GenMonitor": ["genmonitor"], "C02_Encoding": ["enc"], "C02_DecodeJump": ["decjump"], "C02_DecodeIndex": ["decidx"], "C02_Monitor": ["monitor"], "C03_Lemma": ["lemma"]},
+    "reach": {"C02_LargeFunction": ["large"], "C02_GenMonitor": ["genmonitor"], "C02_Encoding": ["enc"], "C02_DecodeJump": ["decjump"], "C02_DecodeIndex": ["decidx"], "C02_Monitor": ["monitor"], "C03_Lemma": ["lemma"]},
     "assumptions": [
         "the static well-formedness pass (jump targets, operand ranges, one operand-stack height per instruction, every path ends in a return) is an ordinary Go function run by the engine on each compiled program: it has no symbolic input; the solver decides the encoding lemmas, the VM decoders and the dynamic monitor over all inputs",
         "stack effect of OpCall is taken as -(numArgs) also for spread calls (the VM replaces callee and arguments by one result)",
@@ -155,7 +155,7 @@ PROPS["C01"] = {
 
 PROPS["C04"] = {
     "level": "model_checking",
-    "harness": ["C04_"],
+    "harness": ["C04_", "C03_Lemma"],
     "tiers": {
         "quick": {"timeout": "20s", "maxsteps": 12000000, "casecap": 128, "bounds": "every byte string of length 1..3 (all 256 values per byte) as script source, 1..2 as module body; scanner progress on every byte string of length 1..2; 5 seed programs (one ending in block + line comments) with one arbitrary byte replaced or inserted at every position; 13 literal/comment openers (/* // \" ` ' 0x 1e 1. a. ...) followed by 1..2 arbitrary bytes; 7 templates whose identifier is 1..4 arbitrary identifier-shaped bytes; 20 templates x 17 identifier substitutions x 13 statement substitutions x 4 configurations (module maps, predeclared variables); repetition: an arbitrary unit of 1 byte (2 thorough) repeated 1,2,9..13,20 times, directly or one per line, after 11 literal/comment/bracket openers and before 4 endings, through parser.NewParser/ParseFile and Script.Compile", "cross": 2},
         "thorough": {"timeout": "60s", "maxsteps": 12000000, "casecap": 128, "bounds": "byte strings of length 1..4 (module body 1..3); 10 seed programs with one arbitrary byte replaced/inserted; templates as quick", "cross": 3},
